@@ -77,6 +77,34 @@ def _run_tool(args):
     return {"exc": out["exc"], "retcode": out["retcode"], "execs": execs}
 
 
+REAL_TOOLS = ["check", "get", "set", "unset", "push", "pop", "create", "clean", "collect"]
+USER_VALUES = {"pool_scope": "own shared", "check_mode_images": "ff"}
+# what the create / clean / collect templates set for the duration of their step (intertest_setup)
+TEMPLATE = {"create": {"pool_scope": "own", "check_mode_images": "rr"}, "clean": {"pool_scope": "own", "check_mode_images": "rf"},
+            "collect": {"pool_scope": "swarm cluster shared", "check_mode_images": "rr"}}
+
+
+def _run_real_chain(args):
+    """part C: the steps of a chain of real tools, one shared run configuration (as Manu.run calls them)"""
+    chain, user = args
+    C.repo_python_setup()
+    import unittest_importer  # noqa: F401
+    from ..tools import harness as T
+    from ..sched import harness as H
+    cfg = T.base_config("net1", {"vm1": "only CentOS\n"})
+    for k, val in user.items():
+        if val == "user":
+            cfg["param_dict"][k] = USER_VALUES[k]
+    steps = []
+    for i, (tool, outcome) in enumerate(chain):
+        before = {k: cfg["param_dict"].get(k) for k in USER_VALUES}
+        out = T.run_tool(tool, cfg, {}, H.Schedule(1 + i, statuses=["PASS" if outcome == "ok" else "FAIL"], durations=(0.2,)), tag="0m%d" % i)
+        after = {k: cfg["param_dict"].get(k) for k in USER_VALUES}
+        pms = [e.get("pm", {}) for e in out["events"] if e["a"] == "start"]
+        steps.append({"tool": tool, "retcode": out["retcode"], "exc": out["exc"], "executions": len(pms), "pm": pms, "before": before, "after": after})
+    return {"steps": steps}
+
+
 def run(tier, seed):
     t0 = time.time()
     C.repo_python_setup()
@@ -88,12 +116,13 @@ def run(tier, seed):
     quick = tier == "quick"
     nets_all = ["net1", "net2", "net5"] if quick else ["net1", "net2", "net3", "net5"]
     with open(os.path.join(work, "MC_Manu.tla"), "w") as f:
-        f.write("---- MODULE MC_Manu ----\nEXTENDS ManuChain\nMCCompat == %s\n====\n" % tla({n: set(COMPAT[n]) for n in nets_all}))
+        f.write("---- MODULE MC_Manu ----\nEXTENDS ManuChain\nMCCompat == %s\nMCOverriding == %s\n====\n"
+                % (tla({n: set(COMPAT[n]) for n in nets_all}), tla({t: set(TEMPLATE.get(t, {})) for t in REAL_TOOLS})))
     with open(os.path.join(work, "MC_Manu.cfg"), "w") as f:
         f.write("SPECIFICATION Spec\nCONSTANTS\n Steps = {\"a\", \"b\"}\n Outcomes = {\"zero\", \"none\", \"one\", \"raise\"}\n MaxChain = %d\n"
-                " StateSteps = %s\n VmSteps = %s\n VMs = %s\n Nets = %s\n Compatible <- MCCompat\n"
-                % (2 if quick else 3, tla(set(STATE_STEPS)), tla(set(VM_STEPS)), tla({"vm1", "vm2", "vm3"}), tla(set(nets_all))))
-        f.write("INVARIANT AllAttemptedInOrder\nINVARIANT FailureReported\nINVARIANT OncePerVmAndWorker\nCHECK_DEADLOCK FALSE\n")
+                " StateSteps = %s\n VmSteps = %s\n VMs = %s\n Nets = %s\n Compatible <- MCCompat\n RealTools = %s\n Overriding <- MCOverriding\n UserKeys = %s\n MaxReal = 2\n"
+                % (2 if quick else 3, tla(set(STATE_STEPS)), tla(set(VM_STEPS)), tla({"vm1", "vm2", "vm3"}), tla(set(nets_all)), tla(set(REAL_TOOLS)), tla(set(USER_VALUES))))
+        f.write("INVARIANT AllAttemptedInOrder\nINVARIANT FailureReported\nINVARIANT OncePerVmAndWorker\nINVARIANT StepParamsOwn\nINVARIANT RealFailureReported\nCHECK_DEADLOCK FALSE\n")
     dump = os.path.join(work, "graph")
     r = C.run_tlc(work, "MC_Manu", "MC_Manu.cfg", dump=dump, timeout=3000)
     if not r.ok:
@@ -152,13 +181,62 @@ def run(tier, seed):
             v.violation(sig, "; ".join(problems[:2]), dict(desc, got=got, expected=exp))
         if len(samples) < 3:
             samples.append(dict(desc, expected_executions=exp))
+    # part C: chains of real tools sharing one run configuration (TLC's terminal states of phase "real" give, per step, the
+    # parameters it must run with and what its tool must report)
+    real = []
+    for sid in g.inits:
+        st = g.states[sid]
+        if str(st["phase"]) != "real":
+            continue
+        cur = sid
+        while [d for d, a in g.out.get(cur, []) if d != cur]:
+            cur = [d for d, a in g.out[cur] if d != cur][0]
+        end = g.states[cur]
+        real.append(([(str(c["step"]), str(c["outcome"])) for c in st["chain"]], {str(k): str(x) for k, x in st["pd"].items()},
+                     [({str(k): str(x) for k, x in e["params"].items()}, str(e["reports"])) for e in end["seen"]]))
+    rng.shuffle(real)
+    # always some chains in which a templated tool is followed by another step / fails alone
+    prio = [x for x in real if len(x[0]) == 2 and x[0][0][0] in TEMPLATE and "user" in x[1].values()][:6 if quick else 40]
+    prio += [x for x in real if len(x[0]) == 1 and x[0][0][0] in TEMPLATE and x[0][0][1] == "fail"][:3 if quick else 12]
+    rest = [x for x in real if x not in prio][:9 if quick else 120]
+    chosen = prio + rest
+    nreal = 0
+    for (chain, user, seen), got in zip(chosen, fork_map(_run_real_chain, [(c, u) for c, u, _ in chosen])):
+        if "harness_error" in got:
+            raise C.MachineryError("real chain failed in the harness: %s" % got["harness_error"])
+        nreal += 1
+        for k, ((tool, outcome), (params, reports), step) in enumerate(zip(chain, seen, got["steps"])):
+            sig = "real-chain step=%s after=%s" % (tool, chain[k - 1][0] if k else "-")
+            if step["exc"]:
+                v.violation(sig + " raises", "chain %s: step %s raised %s" % (chain, tool, step["exc"]), {"chain": chain, "user": user, "got": got})
+                continue
+            said = "success" if step["retcode"] in (None, 0) else "failure"
+            if step["executions"] and said != reports:
+                v.violation("real-chain tool=%s reports=%s expected=%s" % (tool, said, reports),
+                            "chain %s (user parameters %s): the test of step %d (%s) ended %s but the tool returned %r, which Manu.run counts as %s"
+                            % (chain, user, k, tool, outcome, step["retcode"], said), {"chain": chain, "user": user, "got": got})
+            for key, val in params.items():
+                want = USER_VALUES[key] if val == "user" else (TEMPLATE[val][key] if val in TEMPLATE else None)
+                if want is None:
+                    continue     # neither the user nor this step's template sets it: the suite's default
+                bad = [pm for pm in step["pm"] if pm.get(key) != want]
+                if bad:
+                    v.violation(sig + " params", "chain %s (user parameters %s): step %d (%s) ran with %s=%r, expected %r"
+                                % (chain, user, k, tool, key, bad[0].get(key), want), {"chain": chain, "user": user, "got": got})
+            if step["after"] != step["before"]:
+                v.violation(sig + " run-parameters-changed", "chain %s: step %s left the run parameters %s (before: %s)" % (chain, tool, step["after"], step["before"]),
+                            {"chain": chain, "user": user, "got": got})
+        if len(samples) < 4:
+            samples.append({"real_chain": chain, "user_parameters": user, "expected_per_step": seen})
     rc = v.finish()
     C.write_evidence(PID, tier, seed, "model_checking", {
         "states": r.distinct, "transitions": r.generated, "traces_validated_against_impl": nchain + ntool, "samples": samples,
-        "chains_executed": nchain, "tool_calls_executed": ntool, "tool_calls_in_model": len([1 for s, d, a in g.edges if a == "RunTool"]),
+        "chains_executed": nchain, "tool_calls_executed": ntool, "real_chains_executed": nreal, "real_chains_in_model": len(real), "tool_calls_in_model": len([1 for s, d, a in g.edges if a == "RunTool"]),
         "rule": "all chains up to the bound x {return 0, return None, return 1, raise} per position executed on Manu.run with recording steps; "
                 "tool x vm selection x worker set transitions (sampled in the quick tier) executed on intertest_setup.<tool> under the "
-                "traversal environment: executions per worker and vm, vm_action, a marker parameter and own-worker execution compared",
+                "traversal environment: executions per worker and vm, vm_action, a marker parameter and own-worker execution compared; "
+                "chains of up to two real tools (incl. create/clean/collect) x test outcome x user-given pool_scope/check_mode_images on one shared "
+                "configuration: parameters each step runs with, run parameters kept, failure reported by the tool",
     }, ["cmd_parser.params_from_cmd and load_addons_tools are substituted for part A (the chain is given directly)",
         "compatibility of the sample nets with the chosen vm variants is a constant of the model (net5 excludes vm1=CentOS)"],
         time.time() - t0, len(v.violations))
